@@ -164,6 +164,9 @@ class C06(Engine):
                 if lexbias and r.random() < 0.7:
                     src = self.freetext if (self.freetext and r.random() < 0.5) else self.lexdiag
                 chosen.append(src[r.randrange(len(src))])
+            tall = [f for f in all_ids if P.files[f]["name"].startswith("tall")]
+            if tall and r.random() < 0.12:
+                chosen.insert(r.randrange(len(chosen) + 1), tall[0])
             tree = {}
             names = []
             for j, fid in enumerate(chosen):
@@ -224,6 +227,20 @@ class C06(Engine):
                 sc["named"] = {f"src/{nm}": fid}      # what the oracle compares: this path is a file of that name and content
                 if v in ("src", "."):
                     sc["ops"][0]["argv"][-1] = f"src/{nm}" if cwd == "." else nm
+            elif i % 8 == 1:
+                # two names for one inode (hard link) in a directory that is named as a whole: both names are requested sources
+                ext = nm[nm.rfind("."):]
+                sc["files"] = {"o": {"name": "zz_second_name" + ext, "base": fid, "splices": []}}
+                sc["tree"] = {"project": {nm: "@" + fid, "zz_second_name" + ext: "=>project/" + nm}}
+                sc["ops"][0]["argv"][-1] = "project"
+                sc["ops"][0]["cwd"] = "."
+                sc["named"] = {f"project/{nm}": fid, f"project/zz_second_name{ext}": "o"}
+            elif i % 8 == 6:
+                # a directory reached through a symbolic link below the directory that was named: its sources are requested too
+                sc["tree"] = {"project": {"libft": "->../vendor/libft", "inner": {}}, "vendor": {"libft": {nm: "@" + fid}}}
+                sc["ops"][0]["argv"][-1] = "project"
+                sc["ops"][0]["cwd"] = "."
+                sc["named"] = {f"project/libft/{nm}": fid}
             elif i % 8 == 5:
                 # `..` right after a symbolic link to a directory: the operating system reaches vendor/<name>, a lexical
                 # normalisation of the path would reach proj/<name> (another file of the same name)
@@ -311,7 +328,7 @@ class C06(Engine):
         out = []
         tf = tree_files(sc["tree"]) if sc.get("tree") else []
         if sc.get("named"):
-            tf = sorted(sc["named"].items())
+            tf = sorted(named_of(sc).items())
         for op in sc["ops"]:
             if op["op"] == "api" and not op.get("no_compare"):
                 out.append(ref_api(sc, op["file"], op.get("debug", 0), op.get("R")))
@@ -328,7 +345,7 @@ class C06(Engine):
         pristine = ops[0].get("state_before") if ops else None
         tf = dict(tree_files(sc["tree"])) if sc.get("tree") else {}
         if sc.get("named"):
-            tf = dict(sc["named"])
+            tf = named_of(sc)
         for i, (op, o) in enumerate(zip(sc["ops"], ops)):
             delta = state_delta(pristine, o.get("state_before"))
             if op["op"] == "api":
@@ -461,7 +478,7 @@ class C06(Engine):
                 break
         if sc.get("named") and end in ("exit", "returned"):
             # the file was requested under this path: its verdict must be reported under this path (and base name)
-            for p in sorted(set(sc["named"]) - matched):
+            for p in sorted(set(named_of(sc)) - matched):
                 vs.append(mk("the requested file is not in the report under the path it was requested by",
                              {"op_index": i, "argv": op["argv"], "file": p,
                               "reported": [f["path"] for rep in o.get("reports") or [] for f in rep["files"]][:4]}))
@@ -630,6 +647,19 @@ class C06(Engine):
                 c["ops"][i]["argv"] = c["ops"][i]["argv"][n:]
                 c["ops"][i]["opts"] = []
                 yield c
+
+
+def named_of(sc):
+    """The path -> file map of a scenario that states it explicitly; entries whose file a minimisation candidate has dropped
+    are left out (the candidate then simply does not reproduce)."""
+    out = {}
+    for p, fid in (sc.get("named") or {}).items():
+        try:
+            file_of(sc, fid)
+        except KeyError:
+            continue
+        out[p] = fid
+    return out
 
 
 def self_name(sc):
